@@ -100,7 +100,8 @@ class Deviant(object):
             dev._busy = True
             try:
                 for m in out:
-                    for r in osend(m, randomizeFirstBlock, update_hashes):
+                    for r in osend(m, randomizeFirstBlock, update_hashes and
+                                   not getattr(m, "nohash", False)):
                         yield r
             finally:
                 dev._busy = False
@@ -110,7 +111,13 @@ class Deviant(object):
         def _queue_message(msg):
             out = decide(msg)
             for m in ([msg] if out is None else out):
-                if m.contentType == 22:
+                if m.contentType == 22 and getattr(m, "nohash", False):
+                    # an extra message the deviant keeps out of its own
+                    # transcript (what a peer does that counts on the
+                    # victim dropping it)
+                    conn._buffer += m.write()
+                    conn._buffer_content_type = 22
+                elif m.contentType == 22:
                     # the library hashes at queue time: keep that
                     oqueue(m)
                 else:
